@@ -47,7 +47,15 @@ pub fn absprog(p: &Program) -> String {
             }
         });
     }
+    // the label table (derived by the compiler / loader, never stored in a file): for every string constant, the address it names or -1
+    let mut ls: Vec<String> = Vec::new();
+    for (i, c) in p.constant_pool.iter().enumerate() {
+        if let ProgramObject::String(s) = c {
+            let a: i64 = p.labels.get(s).map(|a| a.value_usize() as i64).unwrap_or(-1);
+            ls.push(format!("[{},{}]", i, a));
+        }
+    }
     let gs: Vec<String> = p.globals.iter().map(|g| g.value().to_string()).collect();
     let entry: i64 = p.entry.get().map(|e| e.value() as i64).unwrap_or(-1);
-    format!("{{\"consts\":[{}],\"globals\":[{}],\"entry\":{},\"codelen\":{}}}", cs.join(","), gs.join(","), entry, p.code.length())
+    format!("{{\"consts\":[{}],\"globals\":[{}],\"entry\":{},\"codelen\":{},\"labels\":[{}]}}", cs.join(","), gs.join(","), entry, p.code.length(), ls.join(","))
 }
